@@ -26,7 +26,7 @@ var skeletonFuncs = []string{
 	"parseAccept", "expectQuality", "negotiateContentType", "negotiateContentEncoding",
 	"state.clone", "state.appendHandler", "state.removeHandler", "state.pickMethodHandler",
 	"Mux.registerService", "Mux.RegisterConn", "Mux.DropConn", "Mux.ServeHTTP", "Mux.serveHTTP", "Mux.serveGRPC", "Mux.serveGRPCWeb", "Mux.encError",
-	"params.set", "method.parseQueryParams", "fieldPath", "NewServer", "createConnHandler",
+	"params.set", "method.parseQueryParams", "fieldPath", "mutablePath", "ownField", "NewServer", "createConnHandler",
 	"parseParam", "quote", "streamHTTP.getCodec", "Mux.match",
 	"state.addConnHandler", "state.processFile", "path.alive", "Mux.loadState", "Mux.storeState",
 	"gzipReader.Read", "gzipWriter.Close", "CompressorGzip.Compress", "CompressorGzip.Decompress", "streamGRPC.compress", "streamGRPC.decompress",
@@ -153,7 +153,7 @@ var stmtFuncs = []string{
 	"webWriter.Flush", "newWebWriter", "isWebRequest",
 	"setOutgoingHeader", "setOutgoingTrailer", "newIncomingContext", "decodeBinHeader", "AsHTTPBodyReader", "AsHTTPBodyWriter",
 	"streamGRPC.begin", "streamGRPC.close", "streamGRPC.isDone", "timeoutUnit", "encodeGrpcMessage", "HTTPStatusCode", "WSStatusCode",
-	"Mux.encError", "streamHTTP.writeMsg", "streamHTTP.getCodec", "parseParam", "quote", "method.parseQueryParams", "fieldPath",
+	"Mux.encError", "streamHTTP.writeMsg", "streamHTTP.getCodec", "parseParam", "quote", "method.parseQueryParams", "fieldPath", "mutablePath", "ownField",
 	"path.addRule", "path.addVariable", "path.addPath", "lexTemplate", "lexSegment", "lexSegments", "lexVariable", "lexFieldPath", "lexVerb",
 	"lexPathSegment", "lexIdent", "lexLiteral", "lexer.emit", "isIdent", "isLiteral", "isPath",
 	"parseAccept", "expectQuality", "negotiateContentType", "negotiateContentEncoding", "state.pickMethodHandler", "state.processFile", "path.alive", "Mux.match",
